@@ -337,15 +337,20 @@ def gen_is_ours(ctx):
 
 
 def build_stable(ctx):
-    for attempt in range(4):
-        nb = len(ctx.broken)
-        gen_ok = ctx.gen()
-        model_ok = gen_ok and ctx.coq_model(["Spec/C05.vo"])
-        proof_ok = gen_ok and ctx.coq_proofs("Properties/C05.v")
-        if not gen_ok or gen_is_ours(ctx):
-            return gen_ok, model_ok, proof_ok
-        ctx.info.append("Gen/FrameConsts.v was overwritten by a concurrent check of another tree; rebuilding")
-        del ctx.broken[nb:]
+    """Translate and build. The Coq build runs while the translator lock is held and right after a fresh translation
+    of OUR tree, so that a concurrent check of another tree cannot swap Gen/FrameConsts.v under the build."""
+    import fcntl
+    gen_ok = ctx.gen()
+    if not gen_ok:
+        return False, False, False
+    with open(os.path.join(verif.ROOT, "tools", ".gen.lock"), "w") as lk:
+        fcntl.flock(lk, fcntl.LOCK_EX)
+        if not gen_is_ours(ctx):
+            verif.sh([os.path.join(verif.ROOT, "bin", "gen"), "-repo", verif.REPO, "-out",
+                      os.path.join(verif.COQ, "Gen")], timeout=120)
+            ctx.info.append("Gen/ had been regenerated from another tree by a concurrent check; translated again")
+        model_ok = ctx.coq_model(["Spec/C05.vo"])
+        proof_ok = ctx.coq_proofs("Properties/C05.v")
     return gen_ok, model_ok, proof_ok
 
 
